@@ -561,11 +561,15 @@ class MinFlowDecomp(pathmodel.AbstractPathModelDAG): # Note that we inherit from
 
         self._lowerbound_k = self.optimization_options.get("lowerbound_k", 1)
 
-        all_weights = set({int(self.G.edges[e][self.flow_attr]) for e in self.G.edges() if self.flow_attr in self.G.edges[e]})
+        # Ignored edges need not be explained by the paths, so they must not contribute to the lower bounds
+        edges_to_ignore_set = set(self.edges_to_ignore)
+        all_weights = set({int(self.G.edges[e][self.flow_attr]) for e in self.G.edges() if self.flow_attr in self.G.edges[e] and e not in edges_to_ignore_set})
         
-        self._lowerbound_k = max(self._lowerbound_k, math.ceil(math.log2(len(all_weights))))
+        if len(all_weights) > 0:
+            self._lowerbound_k = max(self._lowerbound_k, math.ceil(math.log2(len(all_weights))))
 
-        self._lowerbound_k = max(self._lowerbound_k, stG.get_width(edges_to_ignore=self.edges_to_ignore))
+        # The global source / sink edges of the fresh stDAG are never weighted: ignore them too (as the k-models do)
+        self._lowerbound_k = max(self._lowerbound_k, stG.get_width(edges_to_ignore=list(edges_to_ignore_set) + list(stG.source_sink_edges)))
 
         if self.optimization_options.get("use_min_gen_set_lowerbound", MinFlowDecomp.use_min_gen_set_lowerbound):  
             mingenset_lowerbound = self._get_lowerbound_with_min_gen_set()
